@@ -9,17 +9,18 @@ LEVEL = "model_checking"
 ENGINE = "bfs"
 TECHNIQUE = (
     "explicit-state breadth-first search over operation histories of real contentsSet/OrderedContentsSet objects, "
-    "a plain dict keyed by normalised path run in lock-step as reference model, full query battery in every new state"
+    "a plain dict keyed by normalised path run in lock-step as reference model; query battery on every directly constructed set"
 )
 RULE = (
     "roots = every set of <=k fs entries (file/dir/symlink at /a,/a/b,/a/b/c,/d, constructed from un-normalised spellings) "
     "as contentsSet and OrderedContentsSet; transitions = add/remove/discard (entry or any of 5 spellings of a path string)/"
     "update/difference_update/intersection_update/symmetric_difference_update/add_missing_directories/clear/clone/"
     "result-of-union|intersection|difference|symmetric_difference/change_offset; after every transition the real set is "
-    "compared entry-by-entry (type, location, mode, uid, gid, mtime, target, data identity) with a dict model; in every new "
-    "state a battery of lookups, membership tests, subset/superset/disjoint tests, the four binary operations with every "
+    "compared entry-by-entry (type, location, mode, uid, gid, mtime, target, data identity) with a dict model; on every directly "
+    "constructed set (mutable and frozen) a battery of lookups, membership tests, subset/superset/disjoint tests, the four binary operations with every "
     "argument set as contentsSet/OrderedContentsSet/iterator of entries, change_offset/insert_offset for every applicable "
-    "prefix and add-missing-directories construction is judged against the model. A class is (operation, outcome)."
+    "prefix and add-missing-directories construction is judged against the model; every expanded search state gets the lookup "
+    "battery (entry and 5 spellings per path). A class is (operation, outcome)."
 )
 ASSUMPTIONS = [
     "paths are absolute and do not start with '//' (POSIX normpath keeps a leading double slash); normalisation = collapse '//', '/./', trailing '/', lexical '..'",
@@ -30,8 +31,8 @@ ASSUMPTIONS = [
     "add_missing_directories is called with an explicit mtime (its default reads the clock)",
 ]
 BOUNDS = {
-    "quick": "roots: all 67 sets of <=2 of 12 entries x {contentsSet, OrderedContentsSet}, histories of <=2 further operations (~270 events per state), full battery (~1500 queries) in states at depth <=1, light battery deeper; all 175 sets of <=3 entries x 2 classes frozen with the full battery",
-    "thorough": "roots: all 175 sets of <=3 entries x 2 classes, histories of <=3 further operations, full battery at depth <=1, light battery deeper; all 256 sets of <=4 entries x 2 classes frozen with the full battery",
+    "quick": "search roots: all 67 sets of <=2 of the 12 entries x {contentsSet, OrderedContentsSet}, every history of <=2 further operations (~370 operations enabled per state); query battery (~1500 queries) on all 175 sets of <=3 entries x 2 classes x {mutable, frozen}; lookup battery in every expanded state, light battery in states holding relocated/auto-created entries",
+    "thorough": "search roots: all 175 sets of <=3 entries x 2 classes with every history of <=2 further operations (~520 operations per state, binary-operation results with all three argument kinds), plus the 13 sets of <=1 entry x 2 classes with every history of <=3 operations; query battery on all 256 sets of <=4 entries x 2 classes x {mutable, frozen}",
 }
 
 PATHS = ["/a", "/a/b", "/a/b/c", "/d"]
@@ -591,10 +592,13 @@ def _tup(x):
 
 def tasks(tier):
     out = [("ctor",)]
-    nroot, depth, nbat = (2, 2, 3) if tier == "quick" else (3, 3, 4)
+    nroot, nbat = (2, 3) if tier == "quick" else (3, 4)
     for cls in ("cset", "ocset"):
         for eis in subsets(nroot):
-            out.append(("bfs", cls, eis, depth, tier == "quick"))
+            out.append(("bfs", cls, eis, 2, tier == "quick"))
+        if tier != "quick":
+            for eis in subsets(1):
+                out.append(("bfs", cls, eis, 3, False))
     bat = [(cls, mutable, eis) for eis in subsets(nbat) for cls in ("cset", "ocset") for mutable in (True, False)]
     for i in range(0, len(bat), 8):
         out.append(("battery", tuple(bat[i : i + 8])))
